@@ -67,7 +67,7 @@ Print Assumptions C10_errors_wellformed.
 
 (** non-vacuity: a world in which the run succeeds and one in which reading fails *)
 Example C10_ex_ok :
-  let w := {| wd_globs := [{| gl_pattern := s "a.yaml"; gl_err := None; gl_matches := [s "a.yaml"] |}];
+  let w := {| wd_globs := [{| gl_pattern := s "a.yaml"; gl_goquoted := s """a.yaml"""; gl_err := None; gl_matches := [s "a.yaml"] |}];
               wd_files := [(s "a.yaml", FInput empty_input)]; wd_build_err := None; wd_write_err := None |} in
   match run the_env (s "1.2.3") {| f_ignore_params := false; f_ignore_services := false; f_quiet := false; f_stub := false |} w (s "o.go") with
   | Ok oc => oc_exit oc = 0 /\ oc_wrote oc = true
@@ -75,7 +75,7 @@ Example C10_ex_ok :
   end.
 Proof. vm_compute. split; reflexivity. Qed.
 Example C10_ex_fail :
-  let w := {| wd_globs := [{| gl_pattern := s "*.yaml"; gl_err := None; gl_matches := [] |}];
+  let w := {| wd_globs := [{| gl_pattern := s "*.yaml"; gl_goquoted := s """*.yaml"""; gl_err := None; gl_matches := [] |}];
               wd_files := []; wd_build_err := None; wd_write_err := None |} in
   match run the_env (s "1.2.3") {| f_ignore_params := false; f_ignore_services := false; f_quiet := false; f_stub := false |} w (s "o.go") with
   | Ok oc => oc_exit oc = 1 /\ oc_wrote oc = false /\ oc_errors oc = [s "runner.StepReadConfig: could not process any files"]
